@@ -3517,6 +3517,23 @@ impl LuaCommandAdapter {
         // Execute with guaranteed atomicity for multi-step scripts
         self.executor.execute(parsed)
     }
+    
+    /// Same as `execute_lua_command` for arguments that are arbitrary byte strings
+    pub fn execute_lua_command_bytes(
+        &self,
+        args: Vec<Vec<u8>>,
+        db_index: usize,
+    ) -> Result<RespFrame> {
+        let frames: Vec<RespFrame> = args
+            .into_iter()
+            .map(RespFrame::from_bytes)
+            .collect();
+        
+        let mut parsed = CommandParser::parse(&frames)?;
+        parsed.db_override = Some(db_index);
+        
+        self.executor.execute(parsed)
+    }
 }
 
 #[cfg(test)]
